@@ -125,6 +125,8 @@ StepOK(e) ==
     /\ Chk("ReadOnlyOpMutates", (ops[p].op \in ReadOnlyOps) => e.mut = 0)
     \* every touched path is inside the cache directory or is the given destination (C15)
     /\ Chk("PathOutsideAreas", e.area # "other")
+    \* something else directly under the cache root is touched only by clear (which empties it)
+    /\ Chk("ForeignEntryTouched", (e.area = "root_other" /\ e.mut = 1) => ops[p].op = "clear")
     /\ Chk("ExtTouched", (e.area = "ext" /\ e.mut = 1) => ops[p].op = "extract")
     \* the state invariants, evaluated on the new state (they are also INVARIANTs of the
     \* normal configuration; repeated here so that diagnostic mode can name them)
